@@ -469,6 +469,19 @@ func (m *Manager) TerminateSession(ctx context.Context, sessionID string, reason
 		return fmt.Errorf("session not found: %s", sessionID)
 	}
 
+	if session.State == StateTerminating {
+		// Another caller (cleanup loop, operator, RADIUS disconnect) is already
+		// terminating this session and will release its addresses and emit the
+		// terminate event: doing it a second time would release an address that
+		// may have been handed to another subscriber in the meantime
+		m.mu.Unlock()
+		m.logger.Debug("Session is already being terminated",
+			zap.String("session_id", sessionID),
+			zap.String("reason", string(reason)),
+		)
+		return nil
+	}
+
 	oldState := session.State
 	session.State = StateTerminating
 	session.StateReason = string(reason)
